@@ -655,7 +655,12 @@ class CSSStyleDeclaration(CSS2Properties, cssutils.util.Base2):
             if replace:
                 # check if update
                 nname = self._normalize(name)
-                properties = self.getProperties(name, all=(not normalize))
+                if normalize:
+                    properties = self.getProperties(name)
+                else:
+                    # the effective property for the literal name
+                    effective = self.getProperty(name, normalize=False)
+                    properties = [effective] if effective else []
                 for property in reversed(properties):
                     if normalize and property.name == nname:
                         property.propertyValue = newp.propertyValue.cssText
